@@ -303,7 +303,7 @@ func checkC04(rep *Report, pool *DriverPool, c *RCase) {
 	}
 	if o.Err != base.Err || !bytes.Equal(o.Bytes, base.Bytes) {
 		class := ""
-		if c.Cut >= 0 && o.Err == "UEOF" && base.Err == "UEOF" && (isPrefix(o.Bytes, base.Bytes) || isPrefix(base.Bytes, o.Bytes)) && absInt(len(o.Bytes)-len(base.Bytes)) <= 3*258 {
+		if c.Cut >= 0 && o.Err == "UEOF" && base.Err == "UEOF" && (isPrefix(o.Bytes, base.Bytes) || isPrefix(base.Bytes, o.Bytes)) && absInt(len(o.Bytes)-len(base.Bytes)) <= 2 {
 			class = "F-C04-truncated-tail-length"
 		}
 		rep.Violate("schedule-dependent", class, fmt.Sprintf("all-at-once: %d bytes, %s; this schedule: %d bytes, %s (first difference at %d)", len(base.Bytes), base.Err, len(o.Bytes), o.Err, firstDiff(o.Bytes, base.Bytes)), c)
